@@ -5,6 +5,8 @@ id=$1; lid=$(echo $id | tr 'C' 'c'); W=/work/$id; V=/verif
 for d in Model Props Lemmas Drv; do
   for f in $W/lean/SageModel/$d/${id}*.lean; do [ -e "$f" ] && cp -v "$f" $V/lean/SageModel/$d/; done
 done
+# shared, non-property-named model files an agent was asked to create
+for f in $W/lean/SageModel/Model/Select.lean; do [ -e "$f" ] && cp -v "$f" $V/lean/SageModel/Model/; done
 cp -v $W/harness/src/ops/$lid.rs $V/harness/src/ops/
 for f in $W/harness/src/ops/${lid}_*.rs; do [ -e "$f" ] && cp -v "$f" $V/harness/src/ops/; done
 [ -e $W/config/$id.json ] && cp -v $W/config/$id.json $V/config/
